@@ -31,7 +31,7 @@ def gen_cases(pid, tier, seed):
             'grow': {rng.randrange(3, 12): rng.randrange(1, 6)} if rng.random() < 0.5 else None,
             'events': ([{'k': 'mine', 'n': rng.randrange(1, 4)} for _ in range(rng.randrange(1, 3))]
                        if rng.random() < 0.7 else []),
-            'sample': i < 2,
+            'sample': i < 2, 'small_files': i % 3 == 0,
         }
         cases.append(case)
     return cases
